@@ -361,7 +361,7 @@ func init() {
 			"(2) hunk sequences constructed from the public DiffElement fields: all well-formed single shapes (path kind x before/after context x 0..3 removes x 0..3 adds x merge/void), all pairs of them, and triples over a reduced shape set (thorough), with plain and hostile payloads; " +
 			"each compared for text identity, hunk identity and identical effect on an 18-document panel; the reader's (state, header) transitions are recorded through hook VerifReadTrace; non-trivial = >=2 hunks or context or multi-value or merge metadata; distinct = distinct (shapes, payload seed) or (a, b, options)",
 		Floors: map[string]int{"sequence_len_2": 20000, "merge_metadata_line": 800, "void_addition": 500, "context_lines": 5000, "multi_value": 5000,
-			"effect_applies": 5000, "#reader_transitions_observed": 25, "colour_codes_present": 10000, "from_diff_multi_hunk": 5000, "reread_patch_gives_b": 20000},
+			"effect_applies": 5000, "#reader_transitions_observed": 25, "colour_codes_present": 10000, "from_diff_multi_hunk": 5000, "reread_patch_gives_b": 20000, "very_long_line_diffs": 50},
 		Assumptions: []string{
 			"a strict hunk after a merge hunk is not representable (metadata lines are additive and inherited) and is excluded, as the property itself does",
 			"constructed hunks keep context lines to index paths and at most one value on non-array paths (the well-formedness rules the format imposes)",
@@ -386,6 +386,9 @@ func init() {
 					prof.Scalars = withoutNull(prof.Scalars)
 				}
 				a, b := PairFor(c.R, o, prof)
+				if i%7 == 6 && len(o.Keys) == 0 {
+					a, b = gen.DeepChainPair(c.R, prof, o.Merge)
+				}
 				aText, bText := ref.ToJSON(a), ref.ToJSON(b)
 				c.Input("a", aText)
 				c.Input("b", bText)
@@ -422,6 +425,39 @@ func init() {
 			},
 		})
 	}
+	// (1b) very long lines: values whose JSON encoding exceeds 64 KiB (every value is one line of the text format)
+	p.Strata = append(p.Strata, mon.Stratum{
+		Name: "from-diff/very-long-lines",
+		N:    qt(60, 1200),
+		Run: func(c *mon.Ctx, i int) {
+			long := func() string { return strings.Repeat(gen.Pick(c.R, []string{"x", "ab", "\u00e9\"", "long line "}), c.R.Range(70000, 200000)/2) }
+			a := map[string]any{"a": 1.0, "b": "short", "c": []any{1.0, 2.0, 3.0}, "z": true}
+			b := map[string]any{"a": 2.0, "b": long(), "c": []any{1.0, long(), 3.0, 4.0}, "zz": false}
+			if i%2 == 1 {
+				a, b = b, a
+			}
+			o := []OptSet{OptNone, OptSetO, OptMset, OptMerge}[i%4]
+			aText, bText := ref.ToJSON(a), ref.ToJSON(b)
+			c.Input("options", o.Name)
+			c.Input("a_bytes", len(aText))
+			c.Input("b_bytes", len(bText))
+			mk := func() jd.Diff { return ReadJ(aText).Diff(ReadJ(bText), o.O()...) }
+			c.Feature("very_long_line_diffs")
+			c.Nontrivial(joinKey(fmt.Sprint(i, len(aText), len(bText)), o.Name))
+			if !c02RoundTrip(c, mk, []string{aText, bText}, nil) {
+				return
+			}
+			d2, err := jd.ReadDiffString(mk().Render())
+			if err != nil {
+				c.Violation("re-read failed: "+err.Error(), nil)
+				return
+			}
+			P, err := ReadJ(aText).Patch(d2)
+			if err != nil || !ref.Eq(Plain(P), ref.MustJSON(bText), o.Reading) {
+				c.Violation("the re-read diff (with lines longer than 64 KiB) does not turn a into b", map[string]any{"error": fmt.Sprint(err)})
+			}
+		},
+	})
 	// (2) constructed shapes
 	p.Strata = append(p.Strata, mon.Stratum{
 		Name:       "constructed/single",
